@@ -88,6 +88,19 @@ def make_case(tier, seed, index):
     if ps is not None:
         for p in ps["programs"]:
             p["spend_sigma"] = (0.0 if rng.random() < 0.5 else None) if zero else float(rng.choice([1.0, 50.0]))
+            # unit cost, capacity constraint and saturation are sampled too; an uncertainty that is large relative to the value
+            # is legal (a draw is a draw, whatever its sign)
+            for q_ in ("unit_cost", "capacity_constraint", "saturation"):
+                series = p.get(q_)
+                if q_ == "capacity_constraint" and series is not None:
+                    series = series["series"]
+                if series is None:
+                    continue
+                vmin = min([abs(v) for v in ([series["a"]] if "a" in series else series["v"])] + [1e9])
+                if zero:
+                    p[q_ + "_sigma"] = 0.0 if rng.random() < 0.5 else None
+                elif rng.random() < 0.6:
+                    p[q_ + "_sigma"] = float(vmin * float(rng.choice([0.05, 0.3, 1.0, 1.5]))) or 0.01
         for c in ps["covouts"]:
             c["sigma"] = (0.0 if rng.random() < 0.7 else None) if zero else float(rng.choice([0.01, 0.05]))
     mode = str(rng.choice(["serial", "pool", "pool", "pool", "ensemble"]))
@@ -113,6 +126,9 @@ def build(case):
         pset = gen.build_progset(ps, P.framework, P.data)
         for p in ps["programs"]:
             pset.programs[p["name"]].spend_data.sigma = p.get("spend_sigma")
+            for q_ in ("unit_cost", "capacity_constraint", "saturation"):
+                if (q_ + "_sigma") in p:
+                    getattr(pset.programs[p["name"]], q_).sigma = p[q_ + "_sigma"]
         for c in ps["covouts"]:
             pset.covouts[(c["par"], c["pop"])].sigma = c.get("sigma")
         instr = gen.build_instructions(ps, {"start": spec["settings"]["start"], "stop": None, "alloc": {}, "capacity": {}, "coverage": {}})
@@ -159,17 +175,27 @@ def fingerprint_of(result, spec):
                 uq["interaction:%s" % it["name"]] = digest._h(h.encode())
     ps = result.model.progset
     if ps is not None:
-        for name, prog in ps.programs.items():
-            r = repr((prog.spend_data.assumption, list(prog.spend_data.vals)))
-            parts.append(("spend", name, r))
-            if (prog.spend_data.sigma or 0) > 0:
-                uq["spend:%s" % name] = digest._h(r.encode())
-        for key, co in ps.covouts.items():
-            r = repr((sorted(co.progs.items()), co.imp_interaction))
-            parts.append(("covout", str(key), r))
-            if (co.sigma or 0) > 0:
-                uq["outcome:%s" % str(key)] = digest._h(r.encode())
+        prts, puq = progset_quantities(ps)
+        parts += prts
+        uq.update(puq)
     return "%s/%d|%s" % (digest._h(repr(parts).encode()), len(uq), json.dumps(uq, sort_keys=True))
+
+
+def progset_quantities(ps):
+    """(all programme-book quantities, {uncertain quantity: hash of its value}) of a (sampled or source) program set."""
+    parts, uq = [], {}
+    for name, prog in ps.programs.items():
+        for label, ts in (("spend", prog.spend_data), ("unitcost", prog.unit_cost), ("capacity", prog.capacity_constraint), ("saturation", prog.saturation)):
+            r = repr((ts.assumption, list(ts.vals)))
+            parts.append((label, name, r))
+            if (ts.sigma or 0) > 0 and ts.has_data:
+                uq["%s:%s" % (label, name)] = digest._h(r.encode())
+    for key, co in ps.covouts.items():
+        r = repr((sorted(co.progs.items()), co.imp_interaction))
+        parts.append(("covout", str(key), r))
+        if (co.sigma or 0) > 0:
+            uq["outcome:%s" % str(key)] = digest._h(r.encode())
+    return parts, uq
 
 
 _CASE = {}
@@ -385,6 +411,14 @@ def run_case(case):
             uqs.append(json.loads(tail) if tail else {})
         except Exception:
             uqs.append({})
+    # a positive uncertainty means a non-zero perturbation: no sample may carry the entered value of an uncertain programme quantity
+    if pset is not None:
+        src = progset_quantities(pset)[1]
+        for key in sorted(src):
+            n_same = sum(1 for u_ in uqs if u_.get(key) == src[key])
+            R.count("uncertain_quantities_compared_with_the_entered_value")
+            if n_same:
+                R.bad("every-uncertain-quantity-perturbed", "C17:sample-carries-the-entered-value-of-an-uncertain-quantity[%s,%s]" % (key.split(":")[0], case["mode"]), {"quantity": key, "samples_with_entered_value": n_same, "samples": len(uqs)})
     # every uncertain quantity on its own: its value must differ between any two samples in which it is visible unclipped
     if len(uqs) >= 2:
         for key in sorted(set().union(*[set(u) for u in uqs])):
